@@ -35,9 +35,9 @@ CATALOGUE = [
     ("C19", "no-ack-for-pause", M, "            self.pause_subscription(src_module, self.message)\n            self.send_ack(src_module)", "            self.pause_subscription(src_module, self.message)"),
     ("C19", "ack-on-module-ready", M, "            self.register_module_ready(src_module, self.message)\n", "            self.register_module_ready(src_module, self.message)\n            self.send_ack(src_module)\n"),
     ("C19", "ack-dest-zero", M, "        header.dest_mod_id = src_module.mod_id\n        header.num_data_bytes = 0\n\n        try:", "        header.dest_mod_id = 0\n        header.num_data_bytes = 0\n\n        try:"),
-    ("C19", "no-ack-when-unchanged", M, "            if src_module.sub_all:\n                return\n            self.subscriptions[sub.msg_type].add(src_module)", "            if src_module.sub_all:\n                return\n            if sub.msg_type in src_module.subs:\n                raise_skip = True\n            self.subscriptions[sub.msg_type].add(src_module)"),
+    ("C19", "no-ack-when-unchanged", M, "            self.add_subscription(src_module, self.message)\n            self.send_ack(src_module)", "            _before = set(src_module.subs)\n            self.add_subscription(src_module, self.message)\n            if set(src_module.subs) != _before:\n                self.send_ack(src_module)"),
     ("C07", "subscription-not-discarded", M, "        for msg_type in module.subs:\n            self.subscriptions[msg_type].discard(module)\n", "        for msg_type in list(module.subs)[1:]:\n            self.subscriptions[msg_type].discard(module)\n"),
-    ("C07", "logger-not-discarded", M, "        self.logger_modules.discard(module)\n", "        pass\n"),
+    ("C07", "module-entry-not-deleted", M, "        self.send_client_close(module)\n        del self.modules[module.conn]", "        self.send_client_close(module)\n        if module.is_logger:\n            del self.modules[module.conn]"),
     ("C07", "client-closed-twice-on-disconnect", M, "        self.remove_module(src_module)\n\n    def add_subscription", "        self.send_client_close(src_module)\n        self.remove_module(src_module)\n\n    def add_subscription"),
     ("C07", "no-client-closed-on-read-error", M, "                                except ConnectionError as err:\n                                    self.disconnect_module(src)", "                                except ConnectionError as err:\n                                    for _t in src.subs:\n                                        self.subscriptions[_t].discard(src)\n                                    self.logger_modules.discard(src)\n                                    src.close()\n                                    del self.modules[src.conn]"),
     ("C14", "drop-without-notice", M, "            else:\n                module.drops += 1\n                print(\"x\", end=\"\", flush=True)\n                self.send_failed_message(module, header, time.perf_counter())", "            else:\n                module.drops += 1\n                print(\"x\", end=\"\", flush=True)\n                if module.drops < 3:\n                    self.send_failed_message(module, header, time.perf_counter())"),
@@ -46,7 +46,7 @@ CATALOGUE = [
     ("C14", "failed-header-dest-missing", M, "        for fname, ftype, *_ in data.msg_header._fields_:\n            setattr", "        for fname, ftype, *_ in data.msg_header._fields_[:7]:\n            setattr"),
     ("C18", "count-after-range-check", M, "        if not self.sending_traffic.get():\n            if self.b_send_msg_timing:\n                self.message_counts[header.msg_type] += 1\n            self.traffic_counter[header.msg_type] += 1\n\n        dest_mod_id = header.dest_mod_id\n        dest_host_id = header.dest_host_id\n", "        dest_mod_id = header.dest_mod_id\n        dest_host_id = header.dest_host_id\n"),
     ("C18", "traffic-not-cleared", M, "        self.traffic_counter.clear()\n", "        pass\n"),
-    ("C18", "traffic-chunk-63", M, "                if i == cd.MESSAGE_TRAFFIC_SIZE:\n", "                if i == cd.MESSAGE_TRAFFIC_SIZE - 1:\n"),
+    ("C18", "traffic-last-chunk-dropped", M, "            if i > 0:\n                data.seqno = self.traffic_seqno", "            if i > 0 and sub_seqno == 1:\n                data.seqno = self.traffic_seqno"),
     ("C18", "timing-off-by-one-type", M, "            if 0 <= mt < cd.MAX_MESSAGE_TYPES:\n                data.timing[mt] = count", "            if 0 < mt < cd.MAX_MESSAGE_TYPES:\n                data.timing[mt] = count"),
     ("C06", "unique-flag-inverted", M, "module.unique = msg.data.allow_multiple == 0", "module.unique = msg.data.allow_multiple != 0"),
     ("C06", "name-check-removed", M, "                    if (m.unique or module.unique) and (m.name == module.name):", "                    if False and (m.name == module.name):"),
@@ -57,8 +57,8 @@ CATALOGUE = [
     ("C02", "client-unsubscribe-all-keeps-flag", C, "                self._subscribed_types.clear()\n                self._paused_types.clear()\n                self._sub_all = False\n            else:\n                self._subscribed_types -= msg_set\n                self._paused_types -= msg_set\n        elif ctrl_msg == \"PauseSubscription\":", "                self._subscribed_types.clear()\n                self._paused_types.clear()\n            else:\n                self._subscribed_types -= msg_set\n                self._paused_types -= msg_set\n        elif ctrl_msg == \"PauseSubscription\":"),
     ("C02", "manager-ignores-pause", M, "        self.remove_subscription(src_module, msg)\n\n    def register_module_ready", "        pass\n\n    def register_module_ready"),
     ("C02", "context-exit-resubscribes-paused", C, "        if was_paused:\n            self.pause_subscription(was_paused)", "        if len(was_paused) > 1:\n            self.pause_subscription(was_paused)"),
-    ("C03", "except-narrowed", M, "                                except ConnectionError as err:\n                                    self.disconnect_module(src)", "                                except ConnectionResetError as err:\n                                    self.disconnect_module(src)"),
-    ("C03", "short-read-branch-removed", M, "            if nbytes != data_size:\n                mod = self.modules[sock]", "            if nbytes == 0 and data_size:\n                mod = self.modules[sock]"),
+    ("C03", "except-narrowed", M, "                                except ConnectionError as err:\n                                    self.disconnect_module(src)", "                                except BrokenPipeError as err:\n                                    self.disconnect_module(src)"),
+    ("C07", "short-payload-read-accepted", M, "            if nbytes != data_size:\n                mod = self.modules[sock]", "            if nbytes == 0 and data_size:\n                mod = self.modules[sock]"),
     ("C03", "size-check-upper-only", M, "        if data_size < 0 or data_size > len(self.data_buffer):", "        if data_size > len(self.data_buffer):"),
     ("C03", "setname-decode-unguarded", M, "        try:\n            src_module.name = name_msg.name or \"\"\n        except UnicodeDecodeError:", "        try:\n            src_module.name = name_msg.name or \"\"\n        except UnicodeEncodeError:"),
 ]
